@@ -314,6 +314,7 @@ type recDS struct {
 	NoBatch bool // behave as a datastore without batching support
 	FailPut func(key string) bool // a direct put for which this returns true fails (nothing is written)
 	FailGet func(key string) bool // a read (get / has) for which this returns true fails with an I/O error
+	FailCommit func(keys []string) bool // a batch commit for which this returns true fails (nothing of the batch is written)
 }
 
 func newRecDS() *recDS { return &recDS{m: map[string][]byte{}} }
@@ -423,6 +424,16 @@ func (b *recBatch) Delete(_ context.Context, key datastore.Key) error {
 
 func (b *recBatch) Commit(context.Context) error {
 	b.r.hook("commit", "")
+	if b.r.FailCommit != nil {
+		var keys []string
+		for _, op := range b.ops {
+			keys = append(keys, op.Key)
+		}
+		if b.r.FailCommit(keys) {
+			b.ops = nil
+			return fmt.Errorf("injected datastore failure: batch commit refused")
+		}
+	}
 	b.r.mu.Lock()
 	defer b.r.mu.Unlock()
 	for _, op := range b.ops {
